@@ -156,7 +156,15 @@ def eval_case(case, allranges=False):
     sel_texts = pick_selection(per, case['sel'])
     settings = mk_sel(sel_texts, case['how'])
     if allranges:
-        rng = [None] + list(range(-n - 2, n + 3))
+        if n <= 20:
+            rng = [None] + list(range(-n - 2, n + 3))
+        else:
+            pts = set([0, 1, n - 1, n, n + 2])
+            for i in range(1, n):
+                if per[i] != per[i - 1]:
+                    pts.update([i - 1, i, i + 1])
+            pts = sorted(x for x in pts if 0 <= x <= n + 2)[:14]
+            rng = [None] + pts + [x - n for x in pts if x - n < 0]
         for a in rng:
             for b in rng:
                 for rev in (False, True):
